@@ -44,6 +44,7 @@ from ._quoters import (
     REQUOTER,
     UNQUOTER,
     human_quote,
+    human_quote_userinfo,
 )
 
 DEFAULT_PORTS = {"http": 80, "https": 443, "ws": 80, "wss": 443, "ftp": 21}
@@ -1453,8 +1454,8 @@ class URL:
 
     def human_repr(self) -> str:
         """Return decoded human readable string for URL representation."""
-        user = human_quote(self.user, "#/:?@[]")
-        password = human_quote(self.password, "#/:?@[]")
+        user = human_quote_userinfo(self.user)
+        password = human_quote_userinfo(self.password)
         if (host := self.host) and ":" in host:
             host = f"[{host}]"
         path = human_quote(self.path, "#?")
